@@ -719,6 +719,71 @@ def rule_r16(prog, res):
     res.share('R16', txt, 'C08', c08.rule_r20, prog, Result)
 
 
+def rule_r17(prog, res):
+    res.rule('R17', 'complex_add declares a choice group at the position of '
+             'its first member (where the serializer writes it) and publishes '
+             'the type of an XmlData member it refers to')
+    f = prog.func('spyne.interface.xml_schema.model:complex_add')
+    loops = [lp for lp in walk_no_defs(f.node) if isinstance(lp, ast.For) and
+             'type_info' in unparse(lp.iter)]
+    res.floor('R17', 'member loops in complex_add', len(loops), 1)
+    n = 0
+    for c in calls_in(f.node):
+        if not (call_name(c) in ('append', 'extend', 'insert') and isinstance(
+                c.func, ast.Attribute) and unparse(c.func.value) ==
+                'sequence' and any('choice_tags' in unparse(a)
+                                   for a in c.args)):
+            continue
+        n += 1
+        inside = any(c in list(ast.walk(lp)) for lp in loops)
+        where = '%s:%d' % (f.module.relpath, c.lineno)
+        res.ob('R17', where, 'complex_add attaches the choice group to the '
+               'sequence %s the member loop' % (
+                   'inside' if inside else 'after'),
+               'ok' if inside else 'VIOLATED')
+        if not inside:
+            res.finding('R17', 'complex_add|choice-group-after-members',
+                        where, 'the xs:choice elements are appended after '
+                        'every ordinary member while XmlDocument writes '
+                        'members in declaration order: a class that declares '
+                        'a choice member before an ordinary one emits '
+                        'documents its own schema rejects')
+    res.floor('R17', 'choice group attachments', n, 1)
+    m = 0
+    for lp in walk_no_defs(f.node):
+        if not (isinstance(lp, ast.For) and
+                '_xml_tag_body_as' in unparse(lp.iter)):
+            continue
+        m += 1
+        names = {x.id for x in ast.walk(lp.target)
+                 if isinstance(x, ast.Name)}
+        bases = [a for st in lp.body for a in ast.walk(st)
+                 if isinstance(a, ast.Call) and call_name(a) ==
+                 'get_type_name_ns']
+        adds = [a for st in lp.body for a in ast.walk(st)
+                if isinstance(a, ast.Call) and call_name(a) == 'add' and
+                isinstance(a.func, ast.Attribute) and
+                unparse(a.func.value) == 'document' and a.args and
+                isinstance(a.args[0], ast.Attribute) and
+                a.args[0].attr == 'type' and
+                unparse(a.args[0].value) in names]
+        ok = bool(adds) or not bases
+        where = '%s:%d' % (f.module.relpath, lp.lineno)
+        res.ob('R17', where, 'complex_add refers to the type of the XmlData '
+               'member as extension base and %s it' % (
+                   'publishes' if ok else 'never publishes'),
+               'ok' if ok else 'VIOLATED')
+        if not ok:
+            res.finding('R17', 'complex_add|xmldata-type-not-published',
+                        where, 'the simpleContent extension base names the '
+                        'type of the XmlData member but document.add() is '
+                        'never called for it (XmlData members are skipped in '
+                        'the member loop): a restricted type such as '
+                        'XmlData(Decimal(gt=0)) is referenced and not '
+                        'defined, the schema does not compile')
+    res.floor('R17', 'XmlData loops in complex_add', m, 1)
+
+
 def run(prog, res, tier):
     res.run_rule(rule_r1, prog, res)
     res.run_rule(rule_r2, prog, res)
@@ -736,12 +801,26 @@ def run(prog, res, tier):
     res.run_rule(rule_r14, prog, res)
     res.run_rule(rule_r15, prog, res)
     res.run_rule(rule_r16, prog, res)
+    res.run_rule(rule_r17, prog, res)
 
 
 _M = 'spyne/interface/xml_schema/model.py'
 _I = 'spyne/interface/_base.py'
 
 MUTANTS = [
+    Mutant('choice-groups-after-members', 'R17', 'fire', _M,
+           in_func('complex_add',
+                   "            if a.xml_choice_group not in choice_tags:\n"
+                   "                sequence.append(choice_tags[a.xml_choice_"
+                   "group])\n            choice_tags[a.xml_choice_group]."
+                   "append(member)\n",
+                   "            choice_tags[a.xml_choice_group].append(member)"
+                   "\n\n    sequence.extend(choice_tags.values())\n"),
+           'choice-group-after-members'),
+    Mutant('xmldata-type-unpublished', 'R17', 'fire', _M,
+           in_func('complex_add',
+                   "            document.add(xtba_type.type, tags)\n", ""),
+           'xmldata-type-not-published'),
     Mutant('uuid-pattern-anchored', 'R15', 'fire',
            'spyne/model/primitive/string.py',
            lambda src: src.replace(
